@@ -171,3 +171,18 @@ Theorem C03_mapor_km_merge_is_union (H : list (oprec (mop oop))) :
   moreach_km H s1 K1 -> moreach_km H s2 K2 -> moreach_km H s K -> K = K1 ∪ K2 -> mmerge orswot_valops s1 s2 = s.
 Proof. exact (mapor_merge_is_union_km H). Qed.
 Print Assumptions C03_mapor_km_merge_is_union.
+
+(** Map<K, Orswot>, EVERY history outside the classes of the known findings T2 and T3 (all commands; a key that some key remove names receives only nested adds [kmn_addonly] and at most one update per actor [km_once]; any other key receives anything): merging two replicas yields exactly the state of a replica that learned the union of the ops (proofs/MapOrswotKMN.v) *)
+From Crdt Require Import model.Orswot model.Map spec.System spec.OrswotSpec spec.OrswotSystem spec.MapSpec spec.MapSystem spec.MapOrswotSpec spec.MapOrswotKM spec.MapOrswotKMN proofs.MapOrswotKMN proofs.MapOrswotKMNCor.
+Theorem C03_mapor_kmn_merge_spec (H : list (oprec (mop oop))) :
+  mohist_ok_kmn H -> km_once H -> kmn_addonly H -> forall (s1 : cmap orswot) (K1 : gset nat) (s2 : cmap orswot) (K2 : gset nat),
+  moreach_kmn H s1 K1 -> moreach_kmn H s2 K2 -> mmerge orswot_valops s1 s2 = mapor_spec_kmn H (K1 ∪ K2).
+Proof. exact (mapor_merge_spec_kmn H). Qed.
+Print Assumptions C03_mapor_kmn_merge_spec.
+
+Theorem C03_mapor_kmn_merge_is_union (H : list (oprec (mop oop))) :
+  mohist_ok_kmn H -> km_once H -> kmn_addonly H ->
+  forall (s1 : cmap orswot) (K1 : gset nat) (s2 : cmap orswot) (K2 : gset nat) (s : cmap orswot) (K : gset nat),
+  moreach_kmn H s1 K1 -> moreach_kmn H s2 K2 -> moreach_kmn H s K -> K = K1 ∪ K2 -> mmerge orswot_valops s1 s2 = s.
+Proof. exact (mapor_merge_is_union_kmn H). Qed.
+Print Assumptions C03_mapor_kmn_merge_is_union.
